@@ -6,8 +6,10 @@
 
    judge1 (every case):
      0 parse_ok   every raw message is the rendering of its parsed fields, and _extract_line_count reads the count back
-     1 lit_ok     norm under the claimed flags = the literal pipeline normalize_line(render) on every line
-     2 sound_b impl   3 mutual_b impl   4 complete_b impl (exact only)   5 count_b impl
+     1 lit_ok     norm under the claimed flags = the literal pipeline normalize_line(render) on every line, no stray
+                  directive keyword, and the KeywordArgumentFilter model answers like the real filter (kw_ok)
+     2 sound_b impl   3 mutual_sb impl (covered or excused by a suppression)   4 complete_sb impl (exact only)
+     5 count_b impl and silent_b impl (nothing suppressed is reported) and, filter stream, rows_okb of the stored rows
      6 impl = model under the claimed vector
      7..9 the project lies in the defect class of the flag (strip: a code part contains `#` or `//`;
           block: a /* */ comment occurs; asym: some stored window spans more source lines than W)
@@ -15,7 +17,7 @@
      0 the clauses hold of the model's output under the ideal vector (filter stream: mutuality and count on the stored rows)
      1..5 impl = model c  for c = claimed vector, claimed minus one flag (strip, block, asym), ideal
    The VM is call-by-value: laziness is expressed with `if`. *)
-From TL Require Import Lib.Base Lib.GenTypes Model.DryBase Model.DryPipe Gen.DryGen Model.Dry Model.DrySpec.
+From TL Require Import Lib.Base Lib.GenTypes Model.DryBase Model.DryPipe Model.DryFilter Gen.DryGen Model.Dry Model.DrySpec.
 
 Definition dwith_flag (i : nat) (q : dquirks) : dquirks :=
   match i with
@@ -34,8 +36,28 @@ Definition parse_ok (paths : list string) (impl : list (viol * string)) : bool :
   forallb (fun p => if String.eqb (v_message paths (fst p)) (snd p)
                     then opt_nat_eqb (extract_line_count (snd p)) (v_count (fst p)) else false) impl.
 
+(* a line that carries none of the tabled directive spellings must not mention a directive keyword at all
+   (otherwise the real parsers might see a directive the model does not) *)
+Definition stray_free (l : dlang) (a : aline) : bool :=
+  match a_cmt a with
+  | CLine t => match lookup_spelling t spellings with Some _ => true | None => false end
+  | _ => false
+  end
+  || (let r := render_line l a in
+      if str_contains "thailint" r then false else if str_contains "design-lint" r then false else negb (str_contains "dry:" r)).
+
 Definition lit_ok (q : dquirks) (files : list afile) : bool :=
-  forallb (fun f => forallb (fun a => if a_doc a then true else String.eqb (norm q (f_lang f) a) (norm_literal (f_lang f) a)) (f_lines f)) files.
+  forallb (fun f => forallb (fun a => if a_doc a then stray_free (f_lang f) a
+                                      else if String.eqb (norm q (f_lang f) a) (norm_literal (f_lang f) a) then stray_free (f_lang f) a else false)
+                            (f_lines f)) files.
+
+(* unit level: the real KeywordArgumentFilter.should_filter was called on windows of a file (file index, the
+   multi-line ast.Call spans of the file, (start, end, answer) triples); the model must give the same answers *)
+Definition kw_ok (files : list afile) (kw : list (nat * list (nat * nat) * list (nat * nat * bool))) : bool :=
+  forallb (fun t => let '(fi, calls, tests) := t in
+             let f := nth_file files fi in
+             let raw := map (render_line (f_lang f)) (f_lines f) in
+             forallb (fun x => let '(s, e, b) := x in Bool.eqb (model_kwarg_filter raw calls s e) b) tests) kw.
 
 (* defect classes, decided on the abstract input with hand-written tests *)
 Definition class_strip (files : list afile) : bool :=
@@ -45,13 +67,16 @@ Definition class_block (files : list afile) : bool :=
 Definition class_asym (W : nat) (rows : list row) : bool :=
   existsb (fun r => negb (r_end r - r_start r + 1 =? W)) rows.
 
-Definition spec_bits (exact : bool) (files : list afile) (W k : nat) (crows : list row) (R : list viol) : list bool :=
-  [sound_b files W R; mutual_b R; if exact then complete_b crows k R else true; count_b crows R].
+Definition spec_bits (exact : bool) (pats paths : list string) (files : list afile) (W k : nat) (crows : list row) (R : list viol) : list bool :=
+  [sound_b files W R; mutual_sb pats paths files crows R; if exact then complete_sb pats paths files crows k R else true;
+   if count_b crows R then (if silent_b pats paths files R then (if exact then true else rows_okb crows) else false) else false].
 
-Definition cand_ok (exact : bool) (irows : option (list row)) (k : nat) (impl : list viol) (q : dquirks) (mrows : list row) : bool :=
+Definition cand_ok (exact : bool) (irows : option (list row)) (k : nat) (pats paths : list string) (files : list afile)
+           (impl : list viol) (q : dquirks) (mrows : list row) : bool :=
   match irows with
-  | Some ri => if (if exact then rows_same ri mrows else rows_subset ri mrows) then viols_same impl (dry_report q k ri) else false
-  | None => if exact then viols_same impl (dry_report q k mrows) else true
+  | Some ri => if (if exact then rows_same ri mrows else rows_subset ri mrows)
+               then viols_same impl (dry_final_of_rows q k pats paths files ri) else false
+  | None => if exact then viols_same impl (dry_final_of_rows q k pats paths files mrows) else true
   end.
 
 (* stored rows as sent by the harness: snippet lines are indices into a per-case table of distinct lines *)
@@ -59,30 +84,33 @@ Definition RI (tbl : list string) (f s e : nat) (ids : list nat) : row :=
   Build_row f s e (join nl (map (fun i => nth i tbl "") ids)).
 
 (* R: all reported violations (parsed fields); msgs: a sample of them with the raw message text *)
-Definition judge1 (q : dquirks) (exact : bool) (W k : nat) (files : list afile) (paths : list string)
-           (R : list viol) (msgs : list (viol * string)) (irows : option (list row)) : list bool :=
+Definition judge1 (q : dquirks) (exact : bool) (W k : nat) (files : list afile) (pats paths : list string)
+           (R : list viol) (msgs : list (viol * string)) (irows : option (list row))
+           (kw : list (nat * list (nat * nat) * list (nat * nat * bool))) : list bool :=
   let rrows := ref_rows W files in
   let mrows := dry_rows q W files in
   (* the count clause is relative to the stored rows when filters may have dropped windows *)
   let crows := if exact then rrows else match irows with Some ri => ri | None => rrows end in
-  parse_ok paths msgs :: lit_ok q files
-  :: spec_bits exact files W k crows R
-  ++ [cand_ok exact irows k R q mrows; class_strip files; class_block files; class_asym W mrows].
+  parse_ok paths msgs :: (if lit_ok q files then kw_ok files kw else false)
+  :: spec_bits exact pats paths files W k crows R
+  ++ [cand_ok exact irows k pats paths files R q mrows; class_strip files; class_block files; class_asym W mrows].
 
-Definition judge2 (q : dquirks) (exact : bool) (W k : nat) (files : list afile)
+Definition judge2 (q : dquirks) (exact : bool) (W k : nat) (files : list afile) (pats paths : list string)
            (R : list viol) (irows : option (list row)) : list bool :=
   let r0 := dry_rows q W files in
   let ri := dry_rows dry_ideal W files in
   (* ordinary stream: the ideal model's report must satisfy every clause; filter stream: the ideal report on the
      stored rows must be mutual and count exactly (its text is whatever the implementation stored) *)
-  let ideal_out := if exact then forallb (fun b => b) (spec_bits true files W k (ref_rows W files) (dry_report dry_ideal k ri))
+  let ideal_out := if exact then forallb (fun b => b) (spec_bits true pats paths files W k (ref_rows W files)
+                                                                    (dry_final_of_rows dry_ideal k pats paths files ri))
                    else match irows with
-                        | Some rs => let Ri := dry_report dry_ideal k rs in if mutual_b Ri then count_b rs Ri else false
+                        | Some rs => let Ri := dry_final_of_rows dry_ideal k pats paths files rs in
+                                     if mutual_sb pats paths files rs Ri then count_b rs Ri else false
                         | None => true
                         end in
   [ideal_out;
-   cand_ok exact irows k R q r0;
-   cand_ok exact irows k R (dwith_flag 0 q) (dry_rows (dwith_flag 0 q) W files);
-   cand_ok exact irows k R (dwith_flag 1 q) (dry_rows (dwith_flag 1 q) W files);
-   cand_ok exact irows k R (dwith_flag 2 q) r0;
-   cand_ok exact irows k R dry_ideal ri].
+   cand_ok exact irows k pats paths files R q r0;
+   cand_ok exact irows k pats paths files R (dwith_flag 0 q) (dry_rows (dwith_flag 0 q) W files);
+   cand_ok exact irows k pats paths files R (dwith_flag 1 q) (dry_rows (dwith_flag 1 q) W files);
+   cand_ok exact irows k pats paths files R (dwith_flag 2 q) r0;
+   cand_ok exact irows k pats paths files R dry_ideal ri].
